@@ -7,9 +7,9 @@
 package main
 
 import (
-	"strings"
 	"encoding/json"
 	"fmt"
+	"strings"
 	"time"
 
 	"go.flow.arcalot.io/pluginsdk/schema"
